@@ -18,7 +18,7 @@ Brackets == IF Wide
             THEN { Call(Id0("concat"), <<E, b>>), Call(Id(<<"f">>, "g"), <<E>>), Lst(<<E>>), Lst(<<a, E>>),
                    Coll(Id0("c"), "any", Lam(Id0("x"), E)), Coll(Attr(a, "q"), "all", Lam(Id0("x"), E)) }
             ELSE {}
-ListRHS == IF Wide THEN { Lst(<<one>>), Lst(<<a, b>>) } ELSE { Lst(<<a>>) }
+ListRHS == IF Wide THEN { Lst(<<one>>), Lst(<<a, b>>), Lst(<<one, one>>), Lst(<<a, b, a>>) } ELSE { Lst(<<a>>) }
 Expand(s) == { <<0, x>> : x \in Atoms }
        \cup { <<1, BinNode(o, E, E)>> : o \in BinOps \ {"in"} }
        \cup { <<1, Cmp("in", E, r)>> : r \in ListRHS }
